@@ -16,7 +16,7 @@ EXEC_PROPS = ['C12_PTOnlyWhenClean', 'C12_CallbackArgs']
 
 EXEC = {
     'C01': dict(owns=['C01'], decide='C01_SuccessValid (MC); ValidOf on the logged destination of every successful real run',
-                q='file:0,universe:1200,random:400,success:500,nan:0,typedzero:0', t='file:0,universe:0,random:10000,success:8000,nan:0,typedzero:0'),
+                q='file:0,universe:1200,random:400,success:500,nan:0,typedzero:0,zeroinstant:0', t='file:0,universe:0,random:10000,success:8000,nan:0,typedzero:0,zeroinstant:0'),
     'C02': dict(owns=['C02', 'C02T', 'C02M'], decide='C02_Exact (MC); bag of logged (path,code,type) = RefIssues; lock-step issue/swallow events',
                 q='file:0,universe:1200,random:500,nan:0,flat:200,badjson:0', t='file:0,universe:0,random:12000,nan:0,flat:5000,badjson:0'),
     'C05': dict(owns=['C05'], decide='C05_NonInterference, M_DestAll (MC); logged issues off catching paths = reference of Uncatch(schema); destination of every catching node = reference in every run (catch-dest)',
